@@ -80,7 +80,7 @@ var (
 	reCallName     = regexp.MustCompile(`\b[A-Z][A-Z]*[0-9]+(_A[0-9]+)?\b`)
 	reBuiltinType  = regexp.MustCompile(`\b(int|float|string|bool|file|path)\b`)
 	reQuoted       = regexp.MustCompile(`"[^"]*"`)
-	reParamName    = regexp.MustCompile(`\b(parameter|field|key|input|fork part|for) [A-Za-z_][A-Za-z0-9_]*`)
+	reParamName    = regexp.MustCompile(`\b(parameter|field|key|input|fork part|ID for) [A-Za-z_][A-Za-z0-9_]*`)
 	reJSONKind     = regexp.MustCompile(`unmarshal (number|T|array|object)`)
 )
 
